@@ -448,7 +448,7 @@ func TestC19(t *testing.T) {
 	defer h.Finish()
 	h.Probes()
 
-	h.Rapid("scripted", h.N(8000, 60000), func(rt *rapid.T) {
+	h.Rapid("scripted", h.N(8000, 300000), func(rt *rapid.T) {
 		pc, _ := genPipeline(rt, h.Avoid, 5, false)
 		// no QUIT inside: the ending is chosen here
 		var reqs [][]*resp.Bin
@@ -475,7 +475,7 @@ func TestC19(t *testing.T) {
 	})
 
 	modes := []string{"fin", "fin-mid", "rst", "quit", "malformed", "quit-hold", "malformed-hold", "stop-reading", "tls-ok", "tls-nocert", "tls-wrongname", "tls-garbage", "idle"}
-	nplans := h.N(120, 1200) / h.NShards
+	nplans := h.N(120, 6000) / h.NShards
 	if nplans < 5 {
 		nplans = 5
 	}
